@@ -172,7 +172,7 @@ pub(crate) mod verif_c18 {
   // partition expressions)
   #[kani::proof]
   #[kani::stub(glob::Pattern::matches, glob_stub)]
-  #[kani::unwind(4)]
+  #[kani::unwind(6)]
   fn c18_criterion() {
     any_glob_table();
     let c = any_criterion(2, 2, 2);
@@ -188,7 +188,7 @@ pub(crate) mod verif_c18 {
   // partitions section
   #[kani::proof]
   #[kani::stub(glob::Pattern::matches, glob_stub)]
-  #[kani::unwind(4)]
+  #[kani::unwind(6)]
   fn c18_criterion_default_partition() {
     any_glob_table();
     let c = any_criterion(1, 2, 0);
